@@ -47,3 +47,10 @@ Lemma extracted_clock_facts :
   forallb (fun m : xmethod => let '(_, _, p) := m in clock_locked false p) all_methods = true /\
   count_clock SessionCache_getitem = 1%nat /\ count_clock SessionCache_setitem = 1%nat.
 Proof. exact (conj extracted_clock_locked cache_clock_once). Qed.
+
+(* no analysed method writes any attribute of self outside the critical section (to_shape maps every
+   XWrite to a shared write whatever the attribute is, so a new cache attribute filled outside the lock
+   -- e.g. a memo of decoded database entries -- breaks method_ok; stated separately) *)
+Lemma extracted_writes_locked :
+  forallb (fun m : xmethod => let '(_, _, p) := m in writes_locked false p) all_methods = true.
+Proof. vm_compute. reflexivity. Qed.
